@@ -23,9 +23,10 @@ PROPERTY = "C28"
 TECHNIQUE = "exhaustive enumeration of the program tree to a depth bound on the real connection, replicated in separate interpreter processes with different hash seeds and compared node by node"
 RULE = ("one evaluation = one program (path in the call tree) executed in one process; non-trivial = the program's last step raised or "
         "returned events; every node is compared across all seeds")
-BOUNDS = {"quick": "all programs of depth <= 3 over the alphabet, both roles, 6 hash seeds + one process with skewed clocks; isolation layer: programs of depth <= 2, two passes in one process",
+BOUNDS = {"quick": "all programs of depth <= 3 over the alphabet, both roles, 6 hash seeds + one process with skewed clocks + one with a deep caller stack; isolation layer: programs of depth <= 2, two passes in one process",
           "thorough": "all programs of depth <= 4, both roles, 6 hash seeds"}
 ASSUMPTIONS = ["one more process runs with hash seed 0 and clocks (time.time / monotonic / perf_counter) that advance an hour per reading",
+               "one more process runs every program 500 frames down the interpreter stack (recursion limit 1000)",
                "hash seeds are sampled (K of 2^32): 0,1,2,3 and two derived from VERIF_SEED; wall-clock and process identity vary freely between the K runs"]
 
 
@@ -94,6 +95,9 @@ def alphabet(client):
     else:
         A.append(("exchange1-we-end-last", ("seq", [("rx", wire.headers(1, sb(H.REQ), es=True).serialize()),
                                                    ("call", "send_headers", (1, H.RESP), {"end_stream": True})])))
+    # a header block padded out with 600 empty CONTINUATION frames, in one chunk
+    rx("rx-block-with-600-empty-continuations", wire.headers(1, sb(H.REQ if not client else H.RESP), eh=False),
+       *([wire.continuation(1, b"", eh=False)] * 600 + [wire.continuation(1, b"", eh=True)]))
     rx("rx-ack", wire.settings([], ack=True))
     rx("rx-data1", wire.data(1, b"abc", pad=2))
     rx("rx-rst1", wire.rst_stream(1, 2))
@@ -192,7 +196,9 @@ def worker_main(role, depth, first_shard, nshards, outpath):
             if d + 1 < depth:
                 rec(pickle.dumps(conn), p2, d + 1)
 
-    rec(root, (), 0)
+    # (the 'deep' process: the same programs with 500 frames of caller below them - what a connection does must not depend
+    # on how much interpreter stack its caller has left, within the few dozen frames the library itself needs)
+    _deep(DEEP if os.environ.get("C28_DEEP") else 0, lambda: rec(root, (), 0))
     with open(outpath, "w") as fh:
         json.dump({"digests": res, "nontrivial": nontrivial, "hashseed": os.environ.get("PYTHONHASHSEED"),
                    "alphabet": [a[0] for a in A]}, fh)
@@ -293,6 +299,25 @@ def make_spec(key):
     raise NotImplementedError
 
 
+def _seed_env(env, s):
+    """'clock' and 'deep' are processes with hash seed 0 and one other thing changed."""
+    env["PYTHONHASHSEED"] = "0" if s in ("clock", "deep") else str(s)
+    env.pop("C28_CLOCK", None)
+    env.pop("C28_DEEP", None)
+    if s == "clock":
+        env["C28_CLOCK"] = "1"       # every clock reading is an hour after the last
+    if s == "deep":
+        env["C28_DEEP"] = "1"        # every program runs 500 frames down the interpreter stack
+    return env
+
+
+DEEP = 500
+
+
+def _deep(n, fn):
+    return fn() if n <= 0 else _deep(n - 1, fn)
+
+
 def _run_all(depth, seeds, roles=("server", "client"), nshards=3, only=None):
     import tempfile
     here = os.path.dirname(os.path.dirname(os.path.dirname(os.path.abspath(__file__))))
@@ -302,11 +327,7 @@ def _run_all(depth, seeds, roles=("server", "client"), nshards=3, only=None):
         for shard in range(nshards):
             for s in seeds:
                 out = os.path.join(tmpd, "%s-%d-%s.json" % (role, shard, s))
-                env = dict(os.environ)
-                env["PYTHONHASHSEED"] = "0" if s == "clock" else str(s)
-                env.pop("C28_CLOCK", None)
-                if s == "clock":
-                    env["C28_CLOCK"] = "1"       # hash seed 0 again, but every clock reading is an hour after the last
+                env = _seed_env(dict(os.environ), s)
                 env["PYTHONPATH"] = here
                 code = ("import sys; sys.path.insert(0, %r); from h2mc import env; from h2mc.checks import c28; "
                         "c28.worker_main(%r, %d, %d, %d, %r)" % (here, role, depth, shard, nshards, out))
@@ -378,13 +399,10 @@ def replay(rec):
         return []
     outs = []
     for s in case["seeds"]:
-        env = dict(os.environ)
-        env["PYTHONHASHSEED"] = "0" if s == "clock" else str(s)
-        env.pop("C28_CLOCK", None)
-        if s == "clock":
-            env["C28_CLOCK"] = "1"
-        code = ("import sys; sys.path.insert(0, %r); from h2mc import env, harness as H; from h2mc.checks import c28; "
-                "A = c28.alphabet(%r); c = H.new_conn(%r); d = [c28._step(c, A[i][1])[0] for i in %r]; print(d[-1])"
+        env = _seed_env(dict(os.environ), s)
+        code = ("import os, sys; sys.path.insert(0, %r); from h2mc import env, harness as H; from h2mc.checks import c28; "
+                "A = c28.alphabet(%r); c = H.new_conn(%r); "
+                "d = c28._deep(c28.DEEP if os.environ.get('C28_DEEP') else 0, lambda: [c28._step(c, A[i][1])[0] for i in %r]); print(d[-1])"
                 % (here, case["role"] == "client", case["role"] == "client", case["path"]))
         outs.append(subprocess.run([sys.executable, "-c", code], env=env, capture_output=True, text=True).stdout.strip())
     if outs[0] != outs[1]:
@@ -396,7 +414,7 @@ def replay(rec):
 
 def run(ctx):
     depth = 3 if ctx.tier == "quick" else 4
-    seeds = [0, 1, 2, 3, 1000 + ctx.seed, (2 ** 31 - 1 - 7 * ctx.seed) % (2 ** 32), "clock"]
+    seeds = [0, 1, 2, 3, 1000 + ctx.seed, (2 ** 31 - 1 - 7 * ctx.seed) % (2 ** 32), "clock", "deep"]
     roles = ("server", "client")
     nshards = 3 if ctx.tier == "quick" else 5
     results = _run_all(depth, seeds, roles, nshards)
